@@ -277,8 +277,10 @@ FlowUnits(d, fmt, us, dev) ==
         heads == UNION {Range(us[k].heads) : k \in DOMAIN us}
         tbls  == UNION {Range(us[k].tbl) : k \in DOMAIN us}
         pos(a) == CHOOSE j \in DOMAIN toks : toks[j] = a
-        firstHead == IF \E j \in DOMAIN toks : toks[j][3] = "HEAD"
-                     THEN CHOOSE j \in DOMAIN toks : toks[j][3] = "HEAD" /\ \A i \in 1..(j - 1) : toks[i][3] # "HEAD"
+        \* (the first heading the DOCX unit builder sees: a heading-styled paragraph inside a table cell is none for it)
+        isHead(a) == a[3] = "HEAD" /\ "tbl" \notin a[4]
+        firstHead == IF \E j \in DOMAIN toks : isHead(toks[j])
+                     THEN CHOOSE j \in DOMAIN toks : isHead(toks[j]) /\ \A i \in 1..(j - 1) : ~isHead(toks[i])
                      ELSE 0
         \* next visible token after position j (0 = none)
         nextVis(j) == IF \E i \in (j + 1)..Len(toks) : ReqA(fmt, toks[i]) = "MUST"
